@@ -173,7 +173,7 @@ func (w *ccWorld) RoundTrip(req *http.Request) (*http.Response, error) {
 		return nil, netError{msg: "dial tcp " + req.URL.Host + ": no route to host"}
 	}
 	// every exchange is a scheduling point: concurrent changes and the per-proxy goroutines of one change interleave here
-	simkit.Pause(w.r, "http:"+req.URL.Host+req.URL.Path)
+	simkit.PauseAs(w.r, "cc>"+req.URL.Host, "http:"+req.URL.Host+req.URL.Path)
 	path := req.URL.Path
 	kind := "other"
 	switch {
